@@ -947,6 +947,7 @@ def _run_inmem(scn: Dict[str, Any], cfg: Dict[str, Any], loop: VLoop, env: Env) 
 
     env.no_requeue = True          # a requeue would be executed again at once by this broker, for ever
     broker = ObsInMem()
+    loop.run_coro(broker.startup())        # what an application does first; the broker's options must survive it
     broker.executor.shutdown(wait=False)
     broker.receiver.executor = InlineExecutor()
     broker.result_backend = RecordingBackend(env)
